@@ -257,8 +257,15 @@ Definition copy_sliced {A} (keep_offset : bool) (v : view) (p : list A) : res vi
 
 Inductive kind := KDna | KRna | KOther.
 
-(** which Sequence implementation: [core.sequence] or [core.new_sequence] *)
-Inductive impl := OldStyle | NewStyle.
+(** which Sequence implementation: [core.sequence] or [core.new_sequence] as
+    they are on the pinned tree, or [Fixed]: both after the two repairs proposed
+    in notes/proposed_fixes (old-style [to_moltype] converts [str(self)] instead
+    of [self._seq.value]; new-style [SeqView.copy(sliced=True)] drops the offset
+    like the old-style one, so that [Sequence.copy] can hand it on).  The
+    correspondence check accepts an implementation that follows either its
+    pinned variant or [Fixed]; the plain-string oracle decides what is a
+    violation. *)
+Inductive impl := OldStyle | NewStyle | Fixed.
 
 (** IUPAC complement on code points, as [moltype.complement] does it for the
     upper-case alphabet; every other character is left unchanged.  The table
@@ -324,7 +331,7 @@ Definition to_moltype (i : impl) (s : pseq) (target : kind) : res pseq :=
   | _, _ =>
       let src := match i with
                  | OldStyle => value (sv s) (parent s)
-                 | NewStyle => realise s
+                 | NewStyle | Fixed => realise s
                  end in
       fresh target (map (match target with KRna => t2u | _ => u2t end) src)
   end.
@@ -342,7 +349,7 @@ Definition apply_op (i : impl) (s : pseq) (o : op) : res pseq :=
   | CopySliced =>
       (* Sequence.copy(sliced=True): the view is re-based on the kept segment
          and the constructor is given annotation_offset = parent_start *)
-      let '(r, seg) := copy_sliced (match i with OldStyle => false | NewStyle => true end) (sv s) (parent s) in
+      let '(r, seg) := copy_sliced (match i with NewStyle => true | OldStyle | Fixed => false end) (sv s) (parent s) in
       match r with
       | Err e => Err e
       | Ok v' =>
